@@ -417,6 +417,10 @@ def run(check):
     check.guarded("COMPILER-SCOPE", rule_compiler_of_this_call)
     check.guarded("NONDET-INVENTORY", lambda c: rule_nondet(c, reach[0] if reach else set()))
     check.guarded("LOG-ARGS", rule_log_args)
+    # the public Rewriter is the JS wrapper: what main.js / js/** keep at module level is shared by every
+    # rewriter of the process
+    from . import c11 as _c11
+    check.guarded("JS-STATE", _c11.rule_js_state)
     return {
         "explanation": "Inventory and type-level rules: statics and their users against the call graph from rewrite; rustc type queries (Freeze, deep ownership walk) on Rewriter/Config; borrow kinds of the configuration on every function reachable from rewrite; who-constructs rules for per-call state; who-calls rules for the random prefix; inventory of nondeterminism sources.",
         "assumptions": ["global state inside swc (string interner, GLOBALS) does not influence output", "hash seeds of dependencies"],
